@@ -53,6 +53,8 @@ class Gensym:
         ident = self._copy_id(ident)
         while ident in self._idents:
             ident.count = self._counter
+            # `NamedId` caches its hash, which covers `count`
+            ident._hash = None
             self._counter += 1
 
         self._idents.add(ident)
